@@ -27,6 +27,8 @@ E == << <<"3">>, <<"1", "2", "+">>, <<"1", "2">>, <<"1", "2", "swap">>, <<":", "
         <<"[", "1", "#(", "2", "#)", "]">>, <<":", "k", "local", "x", "x", "x", ";", "3", "k">>,
         <<":", "a", "1", ";", ":", "b", "2", ";", "a", "b", "+">>,
         <<":", "a", "1", ";", "8", "const", "c", ":", "b", "2", ";", ":", "d", "3", ";", "a", "b", "d", "c", "+", "+", "+">>,
+        <<":", "k", "#(", "2", "3", "+", "#)", ";", "k", "k", "*">>,        \* a block inside a definition inside the block
+        <<"x", "1", "+">>,                                                   \* x: a constant of an earlier block (a local of the enclosing word has the same name)
         <<"dup">>, <<"drop">>, <<"v">>, <<"5", "var", "w">>, <<"1", "0", "/">>, <<"9", "!", "v">>, <<"nil">>, <<"true">> >>
 \* positions: prefix / suffix around the block
 Pos == << [pre |-> <<"9">>, suf |-> <<>>],
@@ -36,9 +38,10 @@ Pos == << [pre |-> <<"9">>, suf |-> <<>>],
           [pre |-> <<"true", "if">>, suf |-> <<"then", "4">>],
           [pre |-> <<"2", "0", "do">>, suf |-> <<"loop">>],
           [pre |-> <<>>, suf |-> <<"const", "zz">>],
-          [pre |-> <<"1", "case", "1", "of">>, suf |-> <<"endof", "endcase">>] >>
+          [pre |-> <<"1", "case", "1", "of">>, suf |-> <<"endof", "endcase">>],
+          [pre |-> <<":", "f", "5", "local", "x">>, suf |-> <<"x", "+", ";", "f">>] >>      \* inside a word that has a local
 \* what was submitted before: a stack and a variable the block must not see
-Prior == << <<>>, <<"100", "200">>, <<"5", "var", "v">>, <<"5", "var", "v", "300">> >>
+Prior == << <<>>, <<"100", "200">>, <<"5", "var", "v">>, <<"5", "var", "v", "300">>, <<"#(", "3", "const", "x", "#)", "100">> >>
 Styles == {"eval", "repl"}
 
 VARIABLES sc, ready
@@ -68,8 +71,8 @@ Texts(ts) == [i \in 1..Len(ts) |-> TokText(ts[i])]
 
 Case(s) ==
   LET h0     == Do(Boot, Prior[s.h], s.style)
-      alone  == X!Submit(Boot, X!Label(Toks(<<"#(">> \o E[s.e] \o <<"#)">>), 1), "eval")   \* e in a sealed block on a fresh machine
-      vals   == X!Visible(alone)                     \* already re-emitted and run: order = what the block leaves
+      alone  == X!Submit(h0, X!Label(Toks(<<"#(">> \o E[s.e] \o <<"#)">>), h0.srcs + 1), "eval")   \* e in a sealed block of its own, after the same history
+      vals   == SubSeq(X!Visible(alone), Len(X!Visible(h0)) + 1, Len(X!Visible(alone)))   \* already re-emitted and run: order = what the block leaves
       withT  == Toks(Pos[s.p].pre \o <<"#(">> \o E[s.e] \o <<"#)">> \o Pos[s.p].suf)
       inlT   == Toks(Pos[s.p].pre) \o ItemToks(vals, 1) \o Toks(Pos[s.p].suf)
       w      == IF s.style = "eval" THEN X!Submit(h0, X!Label(withT, h0.srcs + 1), "eval")
@@ -84,7 +87,8 @@ Case(s) ==
       nonConst == {k \in (Len(h0.dict) + 1)..Len(w.dict) : w.dict[k].k # "const" /\ w.dict[k].name \in defsIn \cup {"w"}}
       \* inside another meta block the stack is shared (same mode; pinned by test_meta_stack) and
       \* several values are not reversed: only single-valued, stack-insensitive blocks are judged there
-      skip   == s.p = 4 /\ (~eOk \/ Len(vals) # 1 \/ E[s.e] \in {<<"depth">>, <<"dup">>, <<"drop">>})
+      skip   == s.p = 4 /\ (~eOk \/ Len(vals) # 1 \/ E[s.e] \in {<<"depth">>, <<"dup">>, <<"drop">>}
+                              \/ (\E k \in 1..Len(E[s.e]) : E[s.e][k] = "#(") /\ (\E k \in 1..Len(E[s.e]) : E[s.e][k] = ":"))   \* a block in a definition in e is compiled against the shared stack
   IN [ skip |-> IF skip THEN 1 ELSE 0, prior |-> Prior[s.h], with |-> Texts(withT), inl |-> Texts(inlT), style |-> s.style, eok |-> IF eOk THEN 1 ELSE 0,
        werr |-> w.err, wvis |-> X!Visible(w), wout |-> w.out,
        agree |-> (IF ~X!Ok(h0) \/ skip THEN TRUE
